@@ -15,7 +15,9 @@ from .common import *
 from pyvc.sym import idivmod, idiv_scale
 from pyvc.interp import SymRat
 
-FLOATS = (1.5, -0.75)
+# float constants: a fraction, a negative fraction, a whole number, and a representable number that is within 1e-9
+# (relative) of a whole number without being one (float shortcuts such as math.isclose / round() must not treat it as whole)
+FLOATS = (1.5, -0.75, 3.0, 268435456.125)
 RES = (0, 3)                  # resolutions (quick); thorough adds 8
 
 
@@ -62,7 +64,7 @@ class _Fxp(Contract):
     raises_unspecified = True
     guard_relevant = False        # the guard facets of these wrappers are those of the LinComb operations they call
     op = None
-    kinds = ("fxp", "lc", "int", "float0", "float1")
+    kinds = ("fxp", "lc", "int", "float0", "float1", "float2", "float3")
     reflected = False
 
     def use_stub(self, c, *a, **k):
@@ -75,7 +77,8 @@ class _Fxp(Contract):
                 for k in self.kinds:
                     if k.startswith("float") and FLOATS[int(k[5:])] * (1 << r) != int(FLOATS[int(k[5:])] * (1 << r)):
                         continue
-                    neg_div = k == "float1" and self.op in ("__truediv__", "__floordiv__", "__mod__")
+                    # a negative divisor, or one far beyond the comparison width, is always refused
+                    neg_div = k in ("float1", "float3") and self.op in ("__truediv__", "__floordiv__", "__mod__")
                     out.append(dict(mode=m, kind=k, res=r, bits=r + 4, **({"raises_only": True} if neg_div else {})))
         return out
 
